@@ -598,6 +598,9 @@ class TestManager:
                         self.process_result(success_env)
                         success_count += 1
 
+                    self.release_folders()
+                    self.futures.clear()
+
                     # if the file increases significantly, bail out the current pass
                     test_case_size = self.current_test_case.stat().st_size
                     if test_case_size >= MAX_PASS_INCREASEMENT_THRESHOLD * starting_test_case_size:
@@ -607,8 +610,6 @@ class TestManager:
                         )
                         break
 
-                    self.release_folders()
-                    self.futures.clear()
                     if not success_env:
                         break
 
